@@ -125,7 +125,7 @@ class Observation(object):
         if marker_stmt is not None:
             return self.moots.get(marker_stmt["moot"])
         fdef = None
-        for f in host.body["frames"]:
+        for f in (host.body or {"frames": []})["frames"]:
             if f["name"] == frame:
                 fdef = f
         if fdef is None:
